@@ -72,7 +72,9 @@ def build(run):
     exprs = list(corpus.closed(t)) + [
         ("restricted", (f * g)("+") * u("-")[0]), ("grad under restriction", grad(f)("+")[i] * u("+")[i]),
         ("with argument", f * tf * grad(tf)[i] * u[i]), ("constant", c0 * f * f), ("div", div(u * f)), ("nested grad", grad(grad(f))[i, i] * g),
-        ("exp sin", exp(f) * sin(g) + f), ("vector expr", as_vector([f, g])[i] * u[i]),
+        ("exp sin", exp(f) * sin(g) + f), ("atan2(f, g)", ufl.atan2(f, g) * h + g), ("atan2(g, f)", ufl.atan2(g, 1 + f * f)), ("atan2(f*h, g)", ufl.atan2(f * h, g)),
+        ("cos, cosh, exp of f", ufl.cos(f) * ufl.cosh(f) + exp(f) * g), ("f**g", (1 + f * f) ** g + abs(f) * g), ("max/min", ufl.max_value(f, g) * ufl.min_value(f, h)),
+        ("sign(f)*g", ufl.sign(f) * g + ufl.sign(g) * f), ("erf, tanh, atan", ufl.erf(f) + ufl.tanh(f) * g + ufl.atan(f)), ("vector expr", as_vector([f, g])[i] * u[i]),
         # variables: replace keeps labels, so an expression combined with its own image holds two variables with one label
         ("two variables sharing a label", C.Variable(f * f, C.Label(21001)) * g + sin(C.Variable(g * f, C.Label(21001)))),
         ("expression plus its own image under f->h", (lambda e_: e_ + replace(e_, {f: h}))(ufl.variable(f) ** 2 * g + sin(ufl.variable(f * g)))),
